@@ -68,7 +68,7 @@ def main():
         dst = os.path.join(VERIF, "seeded", seed_id)
         os.makedirs(dst, exist_ok=True)
         for f in ("patch.diff", "demo.py", "notes.md"):
-            if os.path.exists(os.path.join(src, f)):
+            if os.path.exists(os.path.join(src, f)) and os.path.realpath(src) != os.path.realpath(dst):
                 shutil.copy(os.path.join(src, f), os.path.join(dst, f))
         notes = open(os.path.join(src, "notes.md")).read() if os.path.exists(os.path.join(src, "notes.md")) else ""
         meta_path = os.path.join(dst, "meta.json")
